@@ -100,6 +100,7 @@ package fiber
 //@   atcall (*App).next: [C05] context-state-from-this-request: chainEntry(ctx, rctx)
 //@   atcall (*Redirect).parseAndClearFlashMessages: [C12] flash-parsed-for-this-request: r == ctx.redirect && r.c == ctx
 //@   atcall (*App).next: [C12] no-flash-header-no-messages: !called((*Redirect).parseAndClearFlashMessages) ==> len(ctx.flashMessages) == 0
+//@   atcall (*App).next: [C12] flash-header-parsed: strContains(hdrRaw(&ctx.fasthttp.Request.Header, epochNow), "fiber_flash") ==> called((*Redirect).parseAndClearFlashMessages)
 //@   atcall (*App).ErrorHandler: only-the-chain-error-once: err != nil && ehCalls == 0
 //@   atcall (*DefaultCtx).SendStatus: 501-unknown-method-500-failed-handler: (status == StatusNotImplemented && ctx.methodInt == -1 && !called((*App).next)) || (status == StatusInternalServerError && catch != nil && catch == ehRet)
 //@   ensures [C07] unknown-method-501: !called((*App).next) ==> sentStatus == StatusNotImplemented
@@ -114,6 +115,7 @@ package fiber
 //@   requires fresh-request: rctx != nil && ehCalls == 0 && sentStatus == 0
 //@   atcall (*App).nextCustom: [C07] method-known: last((*App).methodInt) != -1
 //@   atcall (*Redirect).parseAndClearFlashMessages: [C12] flash-parsed-for-this-request: true
+//@   atcall (*App).nextCustom: [C12] flash-header-parsed: strContains(hdrRaw(&last(CustomCtx.Request).Header, epochNow), "fiber_flash") ==> called((*Redirect).parseAndClearFlashMessages)
 //@   atcall (*App).ErrorHandler: only-the-chain-error-once: err != nil && ehCalls == 0
 //@   atcall CustomCtx.SendStatus: 501-unknown-method-500-failed-handler: (status == StatusNotImplemented && last((*App).methodInt) == -1 && !called((*App).nextCustom)) || (status == StatusInternalServerError && catch != nil && catch == ehRet)
 //@   ensures [C07] unknown-method-501: !called((*App).nextCustom) ==> sentStatus == StatusNotImplemented
